@@ -948,6 +948,61 @@ DETAIL["c17_filter_cross_history"] = lambda fi: {"failing": filter_cross_sweep(f
 CONDITIONS.append({"fn": "c17_filter_cross_history", "quick": 300, "thorough": 600, "sel_only": True,
                    "bounds": "80 filters x 3 argument forms x %d values applied first; then all of them again against a baseline taken in fresh threads" % len(FH_VALUES)})
 
+# ---- loaders keep no memory of earlier requests: after any two earlier loads, a name resolves as in a fresh environment ------
+_LH_A = {"header": "custom header", "page": "{% include 'header' %}|{% include 'footer' %}", "only_a": "A"}
+_LH_B = {"header": "default header", "footer": "default footer", "sitemap": "{% include 'header' %}!", "only_b": "B"}
+_LH_C = {"header": "third header", "footer": "third footer", "only_c": "C", "sitemap": "third sitemap"}
+_LH_NAMES = ["header", "footer", "sitemap", "page", "only_a", "only_b", "only_c", "nosuch"]
+
+
+def _lh_env(kind):
+    from liquid import CachingChoiceLoader, ChoiceLoader, DictLoader
+    loaders = [DictLoader(dict(_LH_A)), DictLoader(dict(_LH_B)), DictLoader(dict(_LH_C))]
+    if kind == 0:
+        return Environment(loader=ChoiceLoader(loaders))
+    if kind == 1:
+        return Environment(loader=CachingChoiceLoader(loaders, auto_reload=False))
+    return Environment(loader=ChoiceLoader([ChoiceLoader(loaders[:2]), loaders[2]]))
+
+
+def _lh_get(env, name, use_async):
+    def run():
+        if use_async:
+            from vf.hx import drive
+            t = drive(env.get_template_async(name))
+            return drive(t.render_async())
+        return env.get_template(name).render()
+    return _corpus.outcome(run)
+
+
+def loader_history_sweep(kind, n1, n2, use_async):
+    env = _lh_env(kind)
+    _lh_get(env, _LH_NAMES[n1], use_async)
+    _lh_get(env, _LH_NAMES[n2], not use_async)
+    bad = []
+    for name in _LH_NAMES:
+        got, fresh = _lh_get(env, name, use_async), _lh_get(_lh_env(kind), name, use_async)
+        if got != fresh:
+            bad.append({"after loading": (_LH_NAMES[n1], _LH_NAMES[n2]), "name": name, "gives": got, "in a fresh environment": fresh})
+    return bad
+
+
+def c17_loader_history(kind: int, n1: int, n2: int, use_async: bool) -> bool:
+    """
+    pre: 0 <= kind <= 2 and 0 <= n1 <= 7 and 0 <= n2 <= 7
+    post: _
+    """
+    if excluded("c17_loader_history", locals()):
+        return True
+    from vf.hx import cbool, cint
+    args = (cint(kind, 0, 2), cint(n1, 0, 7), cint(n2, 0, 7), cbool(use_async))
+    return finish(untraced(lambda: not loader_history_sweep(*args)))
+
+
+DETAIL["c17_loader_history"] = lambda kind, n1, n2, use_async: {"loader": ("ChoiceLoader", "CachingChoiceLoader", "nested ChoiceLoader")[kind], "failing": loader_history_sweep(kind, n1, n2, use_async)[:3]}
+CONDITIONS.append({"fn": "c17_loader_history", "quick": 60, "thorough": 120, "sel_only": True,
+                   "bounds": "choice, caching choice and nested choice loaders over three dict loaders with shadowed names; two earlier loads from 8 names, then all 8 names against a fresh environment"})
+
 # ---- one parsed template whose tags meet different definitions from render to render (a macro defined by whichever partial
 # the data selects, a block overridden or not, a partial chosen by name): each render equals the render of a fresh parse ----
 _MH_P = {"theme_a": "{% macro price amount, currency: 'USD' %}{{ amount }} {{ currency }}{% endmacro %}",
